@@ -220,8 +220,11 @@ def families():
     for f, nb in files:
         for n0, n in ([(1, 2), (2, 4), (2, 3), (4, 1)] if quick else [(1, 2), (1, 3), (2, 4), (2, 3), (3, 4), (4, 1), (4, 8), (3, 2)]):
             insts.append({"kind": "swc", "file": f, "n0": n0, "calls": "all", "n": n, "backends": B3[:2] if f in ("spindle", "morph_minimal.swc") else []})
+    # min_radius passed to read_swc and to set_ncomp alike (the spindle's tapering dendrite goes below 0.45 um)
+    insts.append({"kind": "swc", "file": "spindle", "n0": 1, "calls": "all", "n": 4, "min_radius": 0.45, "backends": B3[:1]})
     if not quick:
         insts.append({"kind": "swc", "file": "spindle", "n0": 2, "calls": "all", "n": 4, "min_radius": 0.45, "backends": B3[:1]})
+        insts.append({"kind": "swc", "file": "spindle", "n0": 4, "calls": "all", "n": 3, "min_radius": 1.0, "backends": B3[:1]})
     return insts
 
 
